@@ -16,7 +16,7 @@
    the non-held readers).  All bounds are in action guards (no state constraint).                 *)
 EXTENDS Naturals, Sequences, FiniteSets, TLC
 
-CONSTANTS Keys, Clients, MaxVer, MaxBatch, MaxMsg, MaxStatus, MaxUpLen, MaxHold
+CONSTANTS Keys, Clients, Vals, MaxVer, MaxBatch, MaxMsg, MaxStatus, MaxUpLen, MaxHold
 
 VARIABLES inq, pendU, pendS, pc, kvs, crumbs,
           cst, ccr, cursor, csent, net, held,
@@ -27,7 +27,7 @@ vars == <<inq, pendU, pendS, pc, kvs, crumbs, cst, ccr, cursor, csent, net, held
           ucur, uhist, hasIS, isnap, joined, cview>>
 
 P == INSTANCE P_Typha
-Never == [ver |-> 0, present |-> FALSE]
+Never == [ver |-> 0, val |-> 0, present |-> FALSE]
 Blank == [k \in Keys |-> Never]
 Statuses == {"wait", "resync", "insync"}
 
@@ -45,17 +45,27 @@ Init ==
     /\ P!Init
 
 \* ---- upstream -----------------------------------------------------------------------------------------
-\* a batch of writes: each key at most once per batch, next version of that key
+\* a batch of writes (one OnUpdates call): a key may occur several times in it (a value flapping A -> B -> A,
+\* delete + re-create ...); versions are consecutive per key; a syncer only reports changes
+RECURSIVE Stamp(_, _)
+Stamp(cur, ops) ==     \* ops: sequence of <<k, val>> (val = 0: delete); result [ok, us] with us a sequence of [k, ver, val, del]
+    IF ops = <<>> THEN [ok |-> TRUE, us |-> <<>>]
+    ELSE LET k == Head(ops)[1]  v == Head(ops)[2]
+             ok == /\ cur[k].ver < MaxVer
+                   /\ (v = 0) => cur[k].present
+                   /\ (v # 0 /\ cur[k].present) => v # cur[k].val
+             u == [k |-> k, ver |-> cur[k].ver + 1, val |-> v, del |-> (v = 0)]
+         IN IF ~ok THEN [ok |-> FALSE, us |-> <<>>]
+            ELSE LET r == Stamp([cur EXCEPT ![k] = [ver |-> u.ver, val |-> v, present |-> v # 0]], Tail(ops))
+                 IN [ok |-> r.ok, us |-> <<u>> \o r.us]
+OpSeqs == UNION { [1..n -> Keys \X (Vals \cup {0})] : n \in 1..MaxUpLen }
+Batches == { r.us : r \in { x \in { Stamp(ucur, ops) : ops \in OpSeqs } : x.ok } }
 RECURSIVE UpAll(_, _, _)
 UpAll(cur, hist, us) ==
     IF us = <<>> THEN <<cur, hist>>
     ELSE LET u == Head(us) IN
-         UpAll([cur EXCEPT ![u.k] = [ver |-> u.ver, present |-> ~u.del]],
-               hist \cup {[k |-> u.k, ver |-> u.ver, del |-> u.del]}, Tail(us))
-Batches ==
-    { us \in UNION { [1..n -> [k : Keys, ver : 1..MaxVer, del : BOOLEAN]] : n \in 1..MaxUpLen } :
-        /\ \A i, j \in DOMAIN us : i # j => us[i].k # us[j].k
-        /\ \A i \in DOMAIN us : us[i].ver = ucur[us[i].k].ver + 1 /\ (us[i].del => ucur[us[i].k].present) }
+         UpAll([cur EXCEPT ![u.k] = [ver |-> u.ver, val |-> u.val, present |-> ~u.del]],
+               hist \cup {[k |-> u.k, ver |-> u.ver, val |-> u.val, del |-> u.del]}, Tail(us))
 \* Cache.inputC has capacity 2 * MaxBatchSize: the producer blocks when it is full
 Upstream(us) ==
     /\ Len(inq) < 2 * MaxBatch
@@ -88,9 +98,14 @@ Fill ==
     /\ pc' = "pub"
     /\ UNCHANGED <<kvs, crumbs, cst, ccr, cursor, csent, net, held, nstatus, nhold, bad, ucur, uhist, hasIS, isnap, joined, cview>>
 
-RECURSIVE ApplyKVs(_, _)
-ApplyKVs(m, us) == IF us = <<>> THEN m
-                   ELSE ApplyKVs([m EXCEPT ![Head(us).k] = [ver |-> Head(us).ver, present |-> ~Head(us).del]], Tail(us))
+\* the update loop of publishBreadcrumb: a value equal to the one in the LIVE map is squashed (WouldBeNoOp ignores
+\* the revision); returns <<new map, deltas>>
+RECURSIVE ApplyKVs(_, _, _)
+ApplyKVs(m, ds, us) ==
+    IF us = <<>> THEN <<m, ds>>
+    ELSE LET u == Head(us) IN
+         IF ~u.del /\ m[u.k].present /\ m[u.k].val = u.val THEN ApplyKVs(m, ds, Tail(us))
+         ELSE ApplyKVs([m EXCEPT ![u.k] = [ver |-> u.ver, val |-> u.val, present |-> ~u.del]], Append(ds, u), Tail(us))
 Publish ==
     /\ pc = "pub"
     /\ LET last == Len(pendU) <= MaxBatch
@@ -98,11 +113,12 @@ Publish ==
            rest == IF last THEN <<>> ELSE SubSeq(pendU, MaxBatch + 1, Len(pendU))
            old == crumbs[Len(crumbs)]
            st == IF last /\ pendS # old.status THEN pendS ELSE old.status
-           kv2 == ApplyKVs(kvs, us)
-           changed == us # <<>> \/ st # old.status
+           r == ApplyKVs(kvs, <<>>, us)
+           kv2 == r[1]
+           changed == r[2] # <<>> \/ st # old.status
        IN /\ pendU' = rest
           /\ kvs' = kv2
-          /\ crumbs' = IF changed THEN Append(crumbs, [deltas |-> us, status |-> st, kvs |-> kv2]) ELSE crumbs
+          /\ crumbs' = IF changed THEN Append(crumbs, [deltas |-> r[2], status |-> st, kvs |-> kv2]) ELSE crumbs
           /\ pc' = IF rest = <<>> THEN "idle" ELSE "pub"
     /\ UNCHANGED <<inq, pendS, cst, ccr, cursor, csent, net, held, nstatus, nhold, bad, ucur, uhist, hasIS, isnap, joined, cview>>
 
@@ -121,7 +137,7 @@ SendSnap(c) ==
     /\ cst[c] = "snap" /\ cursor[c] # <<>>
     /\ LET n == IF Len(cursor[c]) < MaxMsg THEN Len(cursor[c]) ELSE MaxMsg
            snap == crumbs[ccr[c]].kvs
-           us == [i \in 1..n |-> [k |-> cursor[c][i], ver |-> snap[cursor[c][i]].ver, del |-> FALSE]]
+           us == [i \in 1..n |-> [k |-> cursor[c][i], ver |-> snap[cursor[c][i]].ver, val |-> snap[cursor[c][i]].val, del |-> FALSE]]
        IN /\ net' = [net EXCEPT ![c] = Append(@, MKVs(us))]
           /\ cursor' = [cursor EXCEPT ![c] = SubSeq(@, n + 1, Len(@))]
     /\ UNCHANGED <<inq, pendU, pendS, pc, kvs, crumbs, cst, ccr, csent, held, nstatus, nhold, bad, ucur, uhist, hasIS, isnap, joined, cview>>
